@@ -2,11 +2,11 @@ SPECIFICATION GSpec
 CONSTANTS
   N = 4
   NSig = 2
-  MaxOps = 12
+  MaxOps = 10
   DeepLock = TRUE
-  BadSig = 0
+  BadSig = 2
   UnlockOnFail = TRUE
   MixinsUpdate = TRUE
-  GenDepth = 12
+  GenDepth = 10
 CONSTRAINT Emit
 CHECK_DEADLOCK FALSE
